@@ -31,8 +31,10 @@ class PF:
         rows, schema = PF.registry[fn]
         self.file_scheme = "simple" if rows else "empty"
         self.row_groups = [_rg(r, t) for r, t in rows]
-        self._schema = schema
-        self.fmd = parquet_thrift.FileMetaData(version=1, schema=list(schema), num_rows=sum(r for r, _ in rows),
+        elems = [parquet_thrift.SchemaElement(name=s) for s in schema]       # real schema elements, compared by value
+        self._schema = elems
+        self.schema = _SchemaObj(elems)
+        self.fmd = parquet_thrift.FileMetaData(version=1, schema=elems, num_rows=sum(r for r, _ in rows),
                                                row_groups=self.row_groups, created_by="x")
         self._head_size = 100
 
@@ -114,27 +116,62 @@ def replay_h_many_legacy(r0, r1, r2, r3, n0, n1, nfiles, flat):
         shutil.rmtree(d, ignore_errors=True)
 
 
-def h_many_schema_mismatch(which: int) -> bool:
+class _SchemaObj:
+    """schema.SchemaHelper as far as comparisons go"""
+
+    def __init__(self, elems):
+        self.elems = [e.name if hasattr(e, "name") else e for e in elems]
+
+    def __eq__(self, o):
+        return isinstance(o, _SchemaObj) and self.elems == o.elems
+
+    def __ne__(self, o):
+        return not self.__eq__(o)
+
+    __hash__ = None
+
+
+class _SchemaMod:
+    SchemaHelper = _SchemaObj
+
+
+SCHEMAS = [["s"], ["t"], ["s", "u"], []]        # same / renamed column / one more column / one column fewer
+
+
+KIND = int(os.environ.get("VERIF_KIND", "1"))      # how the odd file differs (lattice): 1 renamed, 2 extra, 3 fewer
+
+
+def h_many_schema_mismatch(which: int, with_fs: bool) -> bool:
     """
     pre: 1 <= which <= 2
     post: __return__
     """
-    # with verification requested a file whose schema differs is rejected
+    kind = KIND
+    # with verification requested a file whose schema differs (renamed column, one more, one fewer) is rejected,
+    # whether the footers are read one by one or gathered through the filesystem object (>= 3 files)
     files = ["root/a.parq", "root/b.parq", "root/c.parq"]
-    PF.registry = {fn: ([(3, i)], ["s"] if i != which else ["t"]) for i, fn in enumerate(files)}
-    saved = api.ParquetFile
+    PF.registry = {fn: ([(3, i)], ["r"] + (SCHEMAS[0] if i != which else SCHEMAS[kind])) for i, fn in enumerate(files)}
+    fs = _FS({files[1]: 50, files[2]: 50}) if with_fs else None
+    saved = (api.ParquetFile, util._get_fmd, api.__dict__.get("schema"))
     api.ParquetFile = PF
+    util._get_fmd = lambda piece: PF(piece.fn).fmd
+    util.int = _IntNS
+    api.schema = _SchemaMod
     try:
         try:
-            util.metadata_from_many(files, verify_schema=True, open_with=None)
+            util.metadata_from_many(files, verify_schema=True, open_with=None, fs=fs)
         except ValueError:
             return True
         return False
     finally:
-        api.ParquetFile = saved
+        api.ParquetFile, util._get_fmd = saved[0], saved[1]
+        if saved[2] is not None:
+            api.schema = saved[2]
+        del util.int
 
 
-def replay_h_many_schema_mismatch(which):
+def replay_h_many_schema_mismatch(which, with_fs):
+    kind = KIND
     import shutil, tempfile
     import pandas as pd
     import fastparquet
@@ -143,13 +180,20 @@ def replay_h_many_schema_mismatch(which):
         paths = []
         for i in range(3):
             fn = os.path.join(d, "f%d.parq" % i)
-            fastparquet.write(fn, pd.DataFrame({"x": [1, 2]} if i != which else {"x": ["u", "v"]}))
+            cols = {"x": [1., 2.], "y": [3., 4.]}
+            if i == which:
+                cols = [{"z": [1., 2.], "y": [3., 4.]}, {"x": [1., 2.], "y": [3., 4.], "u": [5., 6.]},
+                        {"x": [1., 2.]}][kind - 1]
+            fastparquet.write(fn, pd.DataFrame(cols))
             paths.append(fn)
         try:
-            fastparquet.ParquetFile(paths, verify=True)
+            fastparquet.ParquetFile(paths, verify=True)       # (a list of local paths always comes with a filesystem)
         except ValueError:
             return False, "rejected"
-        return True, "files with differing schemas are accepted although verification was requested"
+        except Exception as ex:
+            return False, "rejected (%s)" % type(ex).__name__
+        return True, "a file with %s is accepted although verification was requested" % (
+            ["a renamed column", "one more column", "one column fewer"][kind - 1])
     finally:
         shutil.rmtree(d, ignore_errors=True)
 
